@@ -43,12 +43,17 @@ func vPath(i int) string {
 	return fmt.Sprintf("h.io/p%d", i)
 }
 
-var vMajor2, vPatchy, vPseudoTop bool
+var vMajor2, vPatchy, vPseudoTop, vPreOnly bool
 var vShape int // 0: any edge; 1: ring; 2: fan
 
 var vPatchNames = []string{"v1.0.0", "v1.0.1", "v1.1.0", "v1.1.1"}
 
+var vPreNames = []string{"v1.0.0-rc.1", "v1.0.0-rc.2", "v1.0.0-rc.3"}
+
 func vVersion(i, k int) string {
+	if vPreOnly && i == 0 {
+		return vPreNames[k] // project 0 has pre-release tags only
+	}
 	if vPatchy {
 		if vPseudoTop && k == vNVer-1 {
 			// an untagged revision newer than every tag of its minor series (what get <p>@main leaves)
